@@ -124,47 +124,44 @@ func specOf(a uint16) (regSpec, bool) {
 	return regSpec{}, false
 }
 
+// pickAddr: the write address of a class: symbolic inside a range, or the configured register address
+func pickAddr(cls int) uint16 {
+	if cls == clsReg {
+		return uint16(vCfg("addr"))
+	}
+	a1 := vU16("a1")
+	switch cls {
+	case clsROM:
+		vAssume(a1 < 0x8000)
+	case clsVRAM:
+		vAssume(inRange(a1, 0x8000, 0x9fff))
+	case clsCartRAM:
+		vAssume(inRange(a1, 0xa000, 0xbfff))
+	case clsWRAM:
+		vAssume(inRange(a1, 0xc000, 0xdfff))
+	case clsEcho:
+		vAssume(inRange(a1, 0xe000, 0xfdff))
+	case clsOAM:
+		vAssume(inRange(a1, 0xfe00, 0xfe9f))
+	case clsUnusable:
+		vAssume(inRange(a1, 0xfea0, 0xfeff))
+	case clsHRAM:
+		vAssume(inRange(a1, 0xff80, 0xfffe))
+	case clsUnmapped:
+		vAssume(isUnmappedIO(a1))
+	case clsWave:
+		vAssume(inRange(a1, 0xff30, 0xff3f))
+	}
+	return a1
+}
+
 func VerifWriteEffect() {
 	cls := vCfg("cls")
 	s := newVerifSystem(uint8(vCfg("type")), uint8(vCfg("rom")), uint8(vCfg("ram")))
 	s.havocAll()
 	m := s.m
 	kind := cartKind(m.mbc)
-	var a1 uint16
-	switch cls {
-	case clsROM:
-		a1 = vU16("a1")
-		vAssume(a1 < 0x8000)
-	case clsVRAM:
-		a1 = vU16("a1")
-		vAssume(inRange(a1, 0x8000, 0x9fff))
-	case clsCartRAM:
-		a1 = vU16("a1")
-		vAssume(inRange(a1, 0xa000, 0xbfff))
-	case clsWRAM:
-		a1 = vU16("a1")
-		vAssume(inRange(a1, 0xc000, 0xdfff))
-	case clsEcho:
-		a1 = vU16("a1")
-		vAssume(inRange(a1, 0xe000, 0xfdff))
-	case clsOAM:
-		a1 = vU16("a1")
-		vAssume(inRange(a1, 0xfe00, 0xfe9f))
-	case clsUnusable:
-		a1 = vU16("a1")
-		vAssume(inRange(a1, 0xfea0, 0xfeff))
-	case clsHRAM:
-		a1 = vU16("a1")
-		vAssume(inRange(a1, 0xff80, 0xfffe))
-	case clsUnmapped:
-		a1 = vU16("a1")
-		vAssume(isUnmappedIO(a1))
-	case clsWave:
-		a1 = vU16("a1")
-		vAssume(inRange(a1, 0xff30, 0xff3f))
-	default:
-		a1 = uint16(vCfg("addr"))
-	}
+	a1 := pickAddr(cls)
 	v := vU8("v")
 	a2 := vU16("a2")
 	before1 := m.Read(a1)
